@@ -99,6 +99,7 @@ type utxo struct {
 	op    *ctypes.OutPoint
 	spent bool
 	born  uint32
+	tracked bool // the node records this output in DepositOutputs (it counts into the owner's total)
 }
 
 type world struct {
@@ -245,6 +246,7 @@ func errClass(e error) string {
 		{"has no vote rights", "norights"},
 		{"need to be bigger than zero", "zero"},
 		{"invalid DPoS 2.0 votes lock time", "lock"},
+		{"DPoSV2 votes amount overflow", "overflow"},
 		{"DPoSV2 vote rights not enough", "notenough"},
 		{"invalid vote output payload", "cand"},
 		{"invalid return votes value", "small"},
@@ -322,15 +324,15 @@ func (w *world) dump() string {
 		if !ok && u == 0 {
 			continue
 		}
-		var locked common.Fixed64
+		locked := new(big.Int) // exact: a Fixed64 sum of the stored votes could itself wrap
 		for _, p := range w.st.GetDposV2Producers() {
 			for _, dvi := range p.GetAllDetailedDPoSV2Votes()[a] {
 				for _, i := range dvi.Info {
-					locked += i.Votes
+					locked.Add(locked, big.NewInt(int64(i.Votes)))
 				}
 			}
 		}
-		fmt.Fprintf(&b, " %d:%d:%d:%d", o, int64(r), int64(u), int64(locked))
+		fmt.Fprintf(&b, " %d:%d:%d:%s", o, int64(r), int64(u), locked.String())
 	}
 	b.WriteString(" R")
 	ids = ids[:0]
@@ -348,7 +350,14 @@ func (w *world) dump() string {
 			st = int(c.State)
 		}
 		cs := w.cm.GetState()
-		fmt.Fprintf(&b, " %d:%d:%d:%d:%d", o, int64(cs.GetTotalAmount(cid)), int64(cs.GetDepositAmount(cid)), int64(w.cm.GetPenalty(cid)), st)
+		// the harness's own ledger: the candidate's deposit outputs that the node tracks and that are unspent
+		var ledger common.Fixed64
+		for _, u := range w.utxos {
+			if u.owner == 1000+o && u.tracked && !u.spent {
+				ledger += u.value
+			}
+		}
+		fmt.Fprintf(&b, " %d:%d:%d:%d:%d:%d", o, int64(cs.GetTotalAmount(cid)), int64(cs.GetDepositAmount(cid)), int64(w.cm.GetPenalty(cid)), st, int64(ledger))
 	}
 	return b.String()
 }
@@ -595,7 +604,7 @@ func exec(t []string) string {
 		info := &payload.CRInfo{Code: k.code, CID: crCID(k), DID: *did, NickName: fmt.Sprintf("cr%d", o), Url: "http://x", Location: 1}
 		tx := w.mk(ctypes.RegisterCR, payload.CRInfoDIDVersion, info, nil, []*ctypes.Output{{ProgramHash: crDepositHash(k), Value: amount}}, nil)
 		w.pending = append(w.pending, tx)
-		w.utxos = append(w.utxos, &utxo{owner: 1000 + o, value: amount, op: ctypes.NewOutPoint(tx.Hash(), 0), born: w.height})
+		w.utxos = append(w.utxos, &utxo{owner: 1000 + o, value: amount, op: ctypes.NewOutPoint(tx.Hash(), 0), born: w.height, tracked: true})
 		return "queued"
 	case "crvote": // CRC vote output (old style vote tx); only for candidates present before the block
 		o := int(i64(t[1]))
@@ -616,7 +625,7 @@ func exec(t []string) string {
 		v := common.Fixed64(i64(t[2]))
 		tx := w.mk(ctypes.TransferAsset, 0, &payload.TransferAsset{}, nil, []*ctypes.Output{{ProgramHash: crDepositHash(k), Value: v}}, nil)
 		w.pending = append(w.pending, tx)
-		w.utxos = append(w.utxos, &utxo{owner: 1000 + o, value: v, op: ctypes.NewOutPoint(tx.Hash(), 0), born: w.height})
+		w.utxos = append(w.utxos, &utxo{owner: 1000 + o, value: v, op: ctypes.NewOutPoint(tx.Hash(), 0), born: w.height, tracked: w.cm.Exist(crCID(k))})
 		return "queued"
 	case "crcancel":
 		o := int(i64(t[1]))
@@ -679,7 +688,7 @@ func exec(t []string) string {
 				w.blockIn[id] = true
 			}
 			if change != 0 {
-				w.utxos = append(w.utxos, &utxo{owner: 1000 + o, value: change, op: ctypes.NewOutPoint(tx.Hash(), 0), born: w.height})
+				w.utxos = append(w.utxos, &utxo{owner: 1000 + o, value: change, op: ctypes.NewOutPoint(tx.Hash(), 0), born: w.height, tracked: true})
 			}
 		}
 		return v
